@@ -1,5 +1,5 @@
 (** C09 - invalid lint filters are reported and suppress nothing. Statements only. *)
-From Selene Require Import Filter.Machine Filter.Spec Filter.Comment Filter.Facts.
+From Selene Require Import Filter.Machine Filter.Spec Filter.Comment Filter.Facts Filter.Correct6 Filter.Correct7.
 
 Theorem C09_unknown_lint_reported : forall es fc ds outs lint comment,
   filter_diagnostics es fc ds = Some outs -> In (FErr lint comment) es ->
@@ -32,3 +32,22 @@ Theorem C09_malformed_inert : forall lints range s e line,
   parse_comment line = None -> visit_comment lints range (s, e, [line]) = Some [].
 Proof. exact malformed_inert. Qed.
 Print Assumptions C09_malformed_inert.
+
+(** all three kinds together, exactly and in order: the failures the machine emits are those the
+    specification lists (unknown lint; global after code; same piece of code, same kind, same lint) *)
+Theorem C09_failures_exact : forall fc fs pre,
+  contigL (live fc fs) = true ->
+  b_failures (fold_left (add_filter fc) fs
+                {| b_instrs := []; b_globals := []; b_conflicting := None; b_failures := pre |})
+  = pre ++ spec_failures_from fc [] fs.
+Proof. exact failures_correct. Qed.
+Print Assumptions C09_failures_exact.
+
+(** a rejected (conflicting) filter never decides a diagnostic: the diagnostics are those of the
+    specification, which only consults accepted filters (C08's main theorem) *)
+Theorem C09_rejected_filters_decide_nothing : forall es fc ds,
+  wf_ok fc (oks es) = true ->
+  filter_diagnostics es fc ds =
+    Some (map ODiag (spec_diags (oks es) fc ds) ++ map OFail (spec_failures es fc)).
+Proof. exact filter_correct. Qed.
+Print Assumptions C09_rejected_filters_decide_nothing.
